@@ -1,0 +1,5 @@
+//go:build !verif
+
+package phase1
+
+func verifPick(int, bool) (int, bool) { return 0, false }
